@@ -122,9 +122,36 @@ def seeds():
     return ok
 
 
+def attribution():
+    """An exception is a verdict only when it starts in the package under test; a failing harness stays a machinery failure."""
+    core.use_repo()
+
+    def inside(ctx):
+        import sigpy as sp
+
+        return sp.linop.Identity([2])(__import__("numpy").zeros(3))
+
+    def outside(ctx):
+        raise ValueError("harness bug")
+
+    def via_numpy(ctx):
+        import numpy as np
+
+        return np.zeros(2) @ np.zeros(3)
+
+    ctx = core.Ctx("C10", "quick", 0)
+    a, b, c = core._run_engine("wavelet", inside, ctx), core._run_engine("wavelet", outside, ctx), core._run_engine("wavelet", via_numpy, ctx)
+    ok = (len(a.violations) == 1 and not a.machinery_error and a.violations[0].props == ["C01", "C10"]
+          and b.machinery_error and not b.violations and c.machinery_error and not c.violations)
+    print("  (e) exception raised inside sigpy -> violation %s; raised by the harness / by numpy under the harness -> machinery failure: %s"
+          % (a.violations[0].props if a.violations else None, "ok" if ok else "FAILED"))
+    return ok
+
+
 def main(tier, seed):
     print("selftest (a): trace corruption")
     ok = trace_corruption()
+    ok &= attribution()
     print("selftest (b): specification corruption")
     ok &= spec_corruption(tier, seed)
     print("selftest (c): negative controls run inside ./check C18 (pinned bisection loop) and ./check C14 (pinned PDHG/G branch)")
